@@ -406,3 +406,42 @@ def subsolver_case(solver=None, clause=None, case=None, **_):
     with np.errstate(all="ignore"):
         res = dict(CLAUSES[solver](d))
     return {"reproduced": res.get(clause) is False, "observed": {"clauses": res}, "required": clause}
+
+
+# ---- C01: Interpolation.__init__ on concrete floats (initial points inside the bounds up to rounding) -------------------------------
+def interpolation_points_inside(xl=None, xu=None, x0=None, radius_init=1.0, npt=None, **_):
+    """Build the real Interpolation for the given bounds / starting point (already inside the bounds) and check every initial
+    interpolation point against the bounds, up to rounding (1e-12 relative to the magnitudes involved)."""
+    from cobyqa.models import Interpolation
+    from cobyqa.settings import Options
+    import types
+    xl, xu, x0 = (np.array([F(e) for e in v], dtype=float) for v in (xl, xu, x0))
+    n = x0.size
+    npt = int(npt) if npt is not None else 2 * n + 1
+    pb = types.SimpleNamespace(bounds=types.SimpleNamespace(xl=xl, xu=xu), x0=x0, n=n)
+    opts = {Options.DEBUG.value: False, Options.RHOBEG.value: float(F(radius_init)), Options.RHOEND.value: 1e-6 * float(F(radius_init)),
+            Options.NPT.value: npt}
+    ip = Interpolation(pb, opts)
+    pts = ip.x_base[:, np.newaxis] + ip.xpt
+    scale = 1.0 + np.abs(xl) + np.abs(xu) + opts[Options.RHOBEG.value]
+    tol = 1e-12 * np.where(np.isfinite(scale), scale, 1.0)
+    out = np.maximum(np.max(xl[:, np.newaxis] - pts, axis=1), np.max(pts - xu[:, np.newaxis], axis=1))
+    bad = bool(np.any(out > tol))
+    return {"reproduced": bad, "observed": {"x_base": ip.x_base.tolist(), "radius": opts[Options.RHOBEG.value],
+                                            "worst_excursion": float(np.max(out)), "points": pts.T.tolist() if bad else None},
+            "required": "every initial interpolation point inside [xl, xu] up to rounding"}
+
+
+# ---- C17: utils.get_arrays_tol on the arrays of a counter-model ------------------------------------------------------------------------
+def arrays_tol(**inp):
+    import re
+    from cobyqa.utils import get_arrays_tol
+    arrs = [np.array([F(e) if e is not None else 0.0 for e in v], dtype=float)
+            for k, v in sorted(inp.items()) if re.match(r"a\d+(\W.*)?$", k) and isinstance(v, list)]
+    if not arrs:
+        return {"reproduced": False, "reason": "no array in the counter-model"}
+    with np.errstate(all="ignore"):
+        tol = get_arrays_tol(*arrs)
+    ok = bool(tol == tol and tol > 0)
+    return {"reproduced": not ok, "observed": {"arrays": [a.tolist() for a in arrs], "tolerance": float(tol)},
+            "required": "a defined positive tolerance"}
